@@ -3961,10 +3961,15 @@ let map_coordinate mode len x =
                                  (zq0 (qtrunc (qdiv (qopp x) (zq0 sz2))))) x
                         else x
                       in
+                      let r =
+                        if qltb i (qopp (zq0 len))
+                        then qplus i (zq0 sz2)
+                        else qminus (qopp i) { qnum = (Zpos XH); qden = XH }
+                      in
                       Some
-                      (if qltb i (qopp (zq0 len))
-                       then qplus i (zq0 sz2)
-                       else qminus (qopp i) { qnum = (Zpos XH); qden = XH })
+                      (if qltb (qopp { qnum = (Zpos XH); qden = XH }) r
+                       then r
+                       else { qnum = Z0; qden = XH })
             else if Z.eqb mode extendWrap
                  then if Z.leb len (Zpos XH)
                       then Some { qnum = Z0; qden = XH }
